@@ -46,24 +46,39 @@ Theorem C03_recipe : forall r F a,
 Proof. exact recipe_in_wrap. Qed.
 Print Assumptions C03_recipe.
 
-(** C03_frames (under [ref_not_inner]). The served segment for reference segment [n] of a well-formed
-    looped reference: tfdt = frame boundary of the reference start, sequence number = the number
-    passed in, and the frames are exactly the frames [g] in [[start/F, end/F)] of the looped source,
-    [src g = min (g - (frame index of the loop start)) (last frame)]: consecutive source frames,
-    restarting at frame 0 at every loop start, the last frame repeated only where the audio table is
-    shorter than the video loop. *)
+(** C03_frames (under [ref_not_inner]; [audio_segment false] = the code as found). The served segment
+    for reference segment [n] of a well-formed looped reference: tfdt = frame boundary of the reference
+    start, sequence number = the number passed in, and the frames are exactly the frames [g] in
+    [[start/F, end/F)] of the looped source, [src g = min (g - (frame index of the loop start)) (last
+    frame)]: consecutive source frames, restarting at frame 0 at every loop start, the last frame
+    repeated only where the audio table is shorter than the video loop. *)
 Theorem C03_frames : forall r F a,
   0 < r -> 0 < F -> F < two32 -> 0 < a ->
   forall vr loopMS, Timeline.wf vr loopMS ->
   forall nr segs n,
   ref_pre r F a vr segs n ->
   ref_not_inner r F a vr segs n ->
-  audio_segment nr (Timeline.S vr n) (Timeline.E vr n) (Timeline.repDuration vr) r F a segs =
+  audio_segment false nr (Timeline.S vr n) (Timeline.E vr n) (Timeline.repDuration vr) r F a segs =
   Ok {| o_tfdt := fb r F a (Timeline.S vr n); o_seq := nr;
         o_frames := map (fun g => Z.min (g - fidx r F a (loop_start vr n)) (tot segs - 1))
                         (rangeZ (fidx r F a (Timeline.S vr n)) (fidx r F a (Timeline.E vr n))) |}.
-Proof. exact ref_served_frames. Qed.
+Proof. exact ref_served_frames_found. Qed.
 Print Assumptions C03_frames.
+
+(** C03_frames_fixed: with proposed_fixes/C03-endidx.diff applied ([audio_segment true]) the same
+    holds without [ref_not_inner]. The correspondence run determines which of the two versions the
+    implementation under test has. *)
+Theorem C03_frames_fixed : forall r F a,
+  0 < r -> 0 < F -> F < two32 -> 0 < a ->
+  forall vr loopMS, Timeline.wf vr loopMS ->
+  forall nr segs n,
+  ref_pre r F a vr segs n ->
+  audio_segment true nr (Timeline.S vr n) (Timeline.E vr n) (Timeline.repDuration vr) r F a segs =
+  Ok {| o_tfdt := fb r F a (Timeline.S vr n); o_seq := nr;
+        o_frames := map (fun g => Z.min (g - fidx r F a (loop_start vr n)) (tot segs - 1))
+                        (rangeZ (fidx r F a (Timeline.S vr n)) (fidx r F a (Timeline.E vr n))) |}.
+Proof. exact ref_served_frames_fixed. Qed.
+Print Assumptions C03_frames_fixed.
 
 (** C03_inner_fails: the hypothesis [ref_not_inner] of C03_frames is necessary, for every asset:
     when the output interval lies strictly inside one VoD audio segment the request fails (HTTP 500). *)
@@ -73,32 +88,39 @@ Theorem C03_inner_fails : forall r F a,
   forall nr segs n,
   ref_pre r F a vr segs n ->
   ~ ref_not_inner r F a vr segs n ->
-  audio_segment nr (Timeline.S vr n) (Timeline.E vr n) (Timeline.repDuration vr) r F a segs =
+  audio_segment false nr (Timeline.S vr n) (Timeline.E vr n) (Timeline.repDuration vr) r F a segs =
   Err "audioLeft != audioInEndAfterWrap".
 Proof. exact ref_served_inner_fails. Qed.
 Print Assumptions C03_inner_fails.
 
-(** C03_inner_refuted: a concrete asset for which the property fails on the unchanged code
-    (one 8 s audio segment of 375 frames, four 2 s video segments; reference segment 1). *)
+(** C03_inner_refuted: a concrete asset for which the property fails on the code as found
+    (one 8 s audio segment of 375 frames, four 2 s video segments; reference segment 1); with the
+    proposed fix the segment is served with source frames 94..187. *)
 Theorem C03_inner_refuted :
   Timeline.wf w_video 8000 /\
   ref_pre 90000 1024 48000 w_video w_audio8 1 /\
   ~ ref_not_inner 90000 1024 48000 w_video w_audio8 1 /\
-  audio_segment 1 (Timeline.S w_video 1) (Timeline.E w_video 1) (Timeline.repDuration w_video)
+  audio_segment false 1 (Timeline.S w_video 1) (Timeline.E w_video 1) (Timeline.repDuration w_video)
                 90000 1024 48000 w_audio8 = Err "audioLeft != audioInEndAfterWrap".
 Proof. exact (conj w_video_wf inner_refuted_witness). Qed.
 Print Assumptions C03_inner_refuted.
 
-(** C03_abut. Whenever two consecutive segments are served, the first starts at the frame boundary of
+Example C03_inner_fixed_example :
+  audio_segment true 1 (Timeline.S w_video 1) (Timeline.E w_video 1) (Timeline.repDuration w_video)
+                90000 1024 48000 w_audio8
+  = Ok {| o_tfdt := 96256; o_seq := 1; o_frames := rangeZ 94 188 |}.
+Proof. exact inner_fixed_witness. Qed.
+
+(** C03_abut (both versions of the code). Whenever two consecutive segments are served, the first starts at the frame boundary of
     its reference start, holds exactly (end - start)/F frames, (end - start) is a multiple of F, and
     the second starts exactly where the first ends; [n + 1] may be the first segment of the next loop. *)
 Theorem C03_abut : forall r F a,
   0 < r -> 0 < F -> F < two32 -> 0 < a ->
   forall vr loopMS, Timeline.wf vr loopMS ->
-  forall nr1 nr2 segs n o1 o2,
+  forall fx nr1 nr2 segs n o1 o2,
   ref_pre r F a vr segs n -> ref_pre r F a vr segs (n + 1) ->
-  audio_segment nr1 (Timeline.S vr n) (Timeline.E vr n) (Timeline.repDuration vr) r F a segs = Ok o1 ->
-  audio_segment nr2 (Timeline.S vr (n + 1)) (Timeline.E vr (n + 1)) (Timeline.repDuration vr) r F a segs = Ok o2 ->
+  audio_segment fx nr1 (Timeline.S vr n) (Timeline.E vr n) (Timeline.repDuration vr) r F a segs = Ok o1 ->
+  audio_segment fx nr2 (Timeline.S vr (n + 1)) (Timeline.E vr (n + 1)) (Timeline.repDuration vr) r F a segs = Ok o2 ->
   o_tfdt o1 = fb r F a (Timeline.S vr n) /\
   lenZ (o_frames o1) = (fb r F a (Timeline.E vr n) - fb r F a (Timeline.S vr n)) / F /\
   (fb r F a (Timeline.E vr n) - fb r F a (Timeline.S vr n)) mod F = 0 /\
@@ -131,9 +153,9 @@ Print Assumptions C03_timeline_recipe.
     ([rp_reach] of [ref_pre] fails) createAudioSeg returns an error or indexes out of range. *)
 Theorem C03_short_audio_refuted :
   awf 1024 w_audio_half /\ awf 1024 w_audio_quarter /\
-  audio_segment 2 (Timeline.S w_video 2) (Timeline.E w_video 2) (Timeline.repDuration w_video)
+  audio_segment false 2 (Timeline.S w_video 2) (Timeline.E w_video 2) (Timeline.repDuration w_video)
                 90000 1024 48000 w_audio_half = Err "audioLeft != audioInEndAfterWrap" /\
-  audio_segment 3 (Timeline.S w_video 3) (Timeline.E w_video 3) (Timeline.repDuration w_video)
+  audio_segment false 3 (Timeline.S w_video 3) (Timeline.E w_video 3) (Timeline.repDuration w_video)
                 90000 1024 48000 w_audio_quarter = Panic "createAudioSeg: index out of range (rep.Segments[startNr])".
 Proof. exact short_audio_refuted_witness. Qed.
 Print Assumptions C03_short_audio_refuted.
@@ -145,7 +167,7 @@ Example C03_example :
   Timeline.wf w_video 8000 /\
   ref_pre 90000 1024 48000 w_video w_audio2short 11 /\
   ref_not_inner 90000 1024 48000 w_video w_audio2short 11 /\
-  (forall o, audio_segment 12 (Timeline.S w_video 11) (Timeline.E w_video 11) (Timeline.repDuration w_video)
+  (forall o, audio_segment false 12 (Timeline.S w_video 11) (Timeline.E w_video 11) (Timeline.repDuration w_video)
                            90000 1024 48000 w_audio2short = Ok o ->
              o_tfdt o = 1056768 /\ o_seq o = 12 /\
              o_frames o = rangeZ 282 372 ++ [371; 371; 371]).
